@@ -196,9 +196,10 @@ func parseXQ(s string) xq {
 }
 
 type xcand struct {
-	kind string // "e" unparsable, "s" short, "m" message
-	id   uint16
-	qs   []xq
+	kind  string // "e" unparsable, "s" short, "m" message
+	id    uint16
+	qs    []xq
+	flags string
 }
 
 func parseCands(s string) []xcand {
@@ -209,7 +210,10 @@ func parseCands(s string) []xcand {
 			out = append(out, xcand{kind: c})
 		default:
 			idS, qsS, _ := strings.Cut(c, ":")
-			x := xcand{kind: "m", id: uint16(vlib.Atoi(idS))}
+			// header flags ride behind the id: t = TC, a = AA, n/s/f = rcode NXDOMAIN/SERVFAIL/FORMERR, x = QR clear
+			flags := strings.TrimLeft(idS, "0123456789")
+			idS = idS[:len(idS)-len(flags)]
+			x := xcand{kind: "m", id: uint16(vlib.Atoi(idS)), flags: flags}
 			for _, q := range splitList(qsS, "+") {
 				x.qs = append(x.qs, parseXQ(q))
 			}
@@ -230,6 +234,22 @@ func candBytes(i int, c xcand) []byte {
 	m := new(dns.Msg)
 	m.Id = c.id
 	m.Response = true
+	for _, fl := range c.flags {
+		switch fl {
+		case 't':
+			m.Truncated = true
+		case 'a':
+			m.Authoritative = true
+		case 'n':
+			m.Rcode = dns.RcodeNameError
+		case 's':
+			m.Rcode = dns.RcodeServerFailure
+		case 'f':
+			m.Rcode = dns.RcodeFormatError
+		case 'x':
+			m.Response = false
+		}
+	}
 	for _, q := range c.qs {
 		m.Question = append(m.Question, dns.Question{Name: q.name, Qtype: q.qt, Qclass: q.qc})
 	}
